@@ -16,7 +16,7 @@ def run(ctx):
     g = ctx.tlc("MC_Iface", "Gen_Iface.cfg", workers=1, timeout=1500, constants={"MaxOps": 3 if q else 4},
                 tag="all histories to depth %d" % (3 if q else 4))
     behs = ctx.behaviours(g)
-    gh = ctx.tlc("MC_Iface", "Gen_Iface.cfg", workers=1, timeout=1500, constants={"MaxOps": 5 if q else 6, "Ops": "<- HeldOps", "V": '{"i1"}', "M": "<- M1h", "Kinds": '{"stub"}' if q else '{"stub", "apply"}', "Args": "{7}"},
+    gh = ctx.tlc("MC_Iface", "Gen_Iface.cfg", workers=1, timeout=1500, constants={"MaxOps": 5 if q else 6, "Ops": "<- HeldOps", "V": '{"i1"}', "M": "<- M1h", "Kinds": '{"stub"}', "Args": "{7}"},
                  tag="all histories with kept handles to depth %d (one variable, two of its methods)" % (5 if q else 6))
     behs += ctx.behaviours(gh)
     gl = ctx.tlc("MC_Iface", "Gen_Iface.cfg", workers=1, timeout=1500, constants={"MaxOps": 3 if q else 4, "V": '{"l1", "l2"}', "M": "<- ML", "Kinds": '{"stub"}', "Args": "{7}"},
